@@ -25,6 +25,8 @@ ASSUMPTIONS = [
     "array literals stay inside the int64 range (they are cast through numpy)",
 ]
 NT_FLOOR = 0.25
+# coverage-guided complement (sv/fuzz.py): strategy -> number of cases
+FUZZ = {"thorough": {"tree": 15000}}
 
 _uid = itertools.count()
 
